@@ -1,7 +1,7 @@
 (** * C08 — module mode: the trait's methods are exactly the module's non-private functions *)
 From Coq Require Import List String Ascii Bool.
 From Entrait Require Import Tok Syn Opts Split FnParams Convert Codegen Expand Proj Examples.
-From Entrait.Proofs Require Import Base Shapes NonVac PSplit PC08.
+From Entrait.Proofs Require Import Base Shapes NonVac PSplit PC08 PC08b.
 Import ListNotations.
 Local Open Scope list_scope.
 
@@ -58,6 +58,41 @@ Theorem c08_method_is_visible_fn : forall sigs pos ts attrs v s body f rest,
   exists r0 r1, parse_outer ts = Ok (attrs, r0) /\ parse_vis r0 = (v, r1) /\ v <> [] /\ peek_fn r1 = true.
 Proof. exact fn_chunk_is_visible_fn. Qed.
 Print Assumptions c08_method_is_visible_fn.
+
+(** Grammar: a well-delimited non-function item — outer attributes, optional visibility, tokens without a
+    top-level brace group or [;], one terminator, directly following [;]s — is split off as exactly one
+    opaque chunk, whatever follows it; a visible function with a body (given syn's signature parse at its
+    offset) is split off as exactly one function chunk; and pieces compose: if every piece is split off as one
+    item in front of the pieces after it, the body splits into exactly these items. *)
+Theorem c08_non_fn_item : forall (in_mod : bool) sigs pos w (rest : toks),
+  witem_ok w -> starts_semi rest = false ->
+  ((if in_mod then match wi_vis w with [] => false | _ => true end else true) && peek_fn (wi_core w ++ [wi_term w] ++ wi_semis w ++ rest)) = false ->
+  parse_body_item in_mod sigs pos (print_witem w ++ rest) =
+  Ok (BUnknown (wi_attrs w) (wi_vis w) (wi_core w ++ [wi_term w] ++ wi_semis w), true, rest).
+Proof. exact non_fn_item_is_one_chunk. Qed.
+Print Assumptions c08_non_fn_item.
+
+Theorem c08_fn_item : forall (in_mod : bool) sigs pos (attrs : list attr) (v : vis) (sigtoks : toks) sg (body : tt) (semis rest : toks),
+  starts_hash (v ++ sigtoks) = false ->
+  vis_shape_ok v (sigtoks ++ [body] ++ semis ++ rest) ->
+  (if in_mod then match v with [] => false | _ => true end else true) = true ->
+  peek_fn (sigtoks ++ [body] ++ semis ++ rest) = true ->
+  find_sig (pos + (List.length (print_attrs attrs) + List.length v)) sigs = Some (mkSigAt (pos + (List.length (print_attrs attrs) + List.length v)) (List.length sigtoks) sg) ->
+  print_sig sg = sigtoks ->
+  is_brace body = true -> forallb is_semi semis = true -> starts_semi rest = false ->
+  parse_body_item in_mod sigs pos (print_attrs attrs ++ v ++ sigtoks ++ [body] ++ semis ++ rest) =
+  Ok (BFn attrs v sg ([body] ++ semis), true, rest).
+Proof. exact fn_item_is_one_chunk. Qed.
+Print Assumptions c08_fn_item.
+
+Theorem c08_items_compose : forall in_mod sigs (pieces : list (toks * body_item)) fuel pos,
+  (forall pre ts it post, pieces = pre ++ (ts, it) :: post ->
+     ts <> [] /\
+     parse_body_item in_mod sigs (pos + List.length (flat_map fst pre)) (ts ++ flat_map fst post) = Ok (it, true, flat_map fst post)) ->
+  List.length (flat_map fst pieces) < fuel ->
+  parse_body in_mod sigs fuel pos (flat_map fst pieces) = Ok (map snd pieces, true).
+Proof. exact chunks_compose. Qed.
+Print Assumptions c08_items_compose.
 
 (** The predicate the checker evaluates (method list = the list of directly declared visible functions
     found by syn's own item parser, the oracle [sf]) holds of every model expansion for which that oracle
